@@ -91,6 +91,13 @@ Literals ==
     /\ RSq("-3/2") = "9/4" /\ RInv("4") = "1/4" /\ RHalf("3") = "3/2"
     /\ RGe("1/2", "1/3") /\ RGt("1/2", "1/3") /\ ~RGt("1/2", "1/2")
 
+\* e^{-x}: the Java evaluation against the degree-40 Taylor polynomial written in TLA+ (remainder x^41/41! < 1e-17 at x = 6)
+RECURSIVE TSum(_, _, _, _)
+TSum(x, term, i, n) == IF i > n THEN "0" ELSE RAdd(term, TSum(x, RDiv(RMul(term, RNeg(x)), RFromInt(i + 1)), i + 1, n))
+ExpOK == \A x \in {"0", "1/7", "1/2", "1", "2.718", "4", "6"} :
+            RLe(RAbs(RSub(RExpNeg(x, 40), TSum(x, "1", 0, 60))), IF RLe(x, "4") THEN "1e-30" ELSE "1e-20")
+ASSUME ExpOK
+ASSUME RExpNeg("0", 10) = "1" /\ RLe(RAbs(RSub(RExpNeg("1", 30), "0.367879441171442321595523770161")), "1e-29")
 ASSUME Binary
 ASSUME Unary
 ASSUME Laws
